@@ -1,4 +1,5 @@
 import DoltVerif.Lemmas.Ignore
+import DoltVerif.Lemmas.IgnoreRename
 /-!
 C46 — Ignored tables stay out of commits and clean removes only untracked tables.
 
@@ -672,5 +673,231 @@ example : (clean true [⟨"i*".toList, true⟩] [] [] [⟨"t".toList, 1⟩]
     (clean false [⟨"i*".toList, true⟩] [] [] [⟨"t".toList, 1⟩]
     [⟨"t".toList, 2⟩, ⟨"i1".toList, 5⟩, ⟨"u".toList, 7⟩]).toOption = some [⟨"t".toList, 2⟩] := by
   decide
+
+/-! ## 9. table RENAME (roots with identities, `Model/IgnoreRename.lean`) -/
+
+/-- `StageTables` without `--force` on roots with identities: the first named table with
+conflicting patterns is reported, else the staged root becomes `stagedAfter` of the named tables
+decided "not ignored". -/
+theorem stageTablesR_spec (ps : List Pat) (tbls : List Str) (st w : TRoot)
+    (hex : ∀ n ∈ tbls, st.has n = true ∨ w.has n = true) :
+    ((∃ n ∈ tbls, decideName ps n = .conflict) →
+      ∃ n ∈ tbls, decideName ps n = .conflict ∧ stageTablesR false ps tbls st w = .error (.conflict n)) ∧
+    ((∀ n ∈ tbls, decideName ps n ≠ .conflict) →
+      ∃ st', stageTablesR false ps tbls st w = .ok st' ∧
+        ∀ n, st'.get? n =
+          stagedAfter (tbls.filter (fun n => decideName ps n == .dontIgnore)) st w n) := by
+  constructor
+  · intro h
+    have : (tbls.find? (fun n => decideName ps n == .conflict)).isSome = true := by
+      rw [List.find?_isSome]; obtain ⟨n, hn, hc⟩ := h; exact ⟨n, hn, by simp [hc]⟩
+    obtain ⟨n, hn⟩ := Option.isSome_iff_exists.mp this
+    refine ⟨n, List.mem_of_find?_eq_some hn, by simpa using List.find?_some hn, ?_⟩
+    simp [stageTablesR, filterForStaging, hn, bind, Except.bind]
+  · intro h
+    have hnone : tbls.find? (fun n => decideName ps n == .conflict) = none := by
+      rw [List.find?_eq_none]; intro n hn; simpa using h n hn
+    have hval : (tbls.filter (fun n => decideName ps n == .dontIgnore)).find?
+        (fun n => !(st.has n || w.has n)) = none := by
+      rw [List.find?_eq_none]; intro n hn
+      have := hex n (List.mem_filter.mp hn).1
+      rcases this with h | h <;> simp [h]
+    refine ⟨moveTablesR (tbls.filter (fun n => decideName ps n == .dontIgnore)) w st, ?_, ?_⟩
+    · unfold stageTablesR
+      simp only [Bool.false_eq_true, if_false, filterForStaging, hnone, validateTablesT, hval, bind,
+        Except.bind, pure, Except.pure]
+    · intro n; exact get?_moveTablesR _ w st n
+
+/-- the names `add -A` actually moves: tables of either root decided "not ignored" -/
+def stagedNames (ps : List Pat) (st w : TRoot) : List Str :=
+  (unionNamesT st w).filter (fun n => decideName ps n == .dontIgnore)
+
+theorem mem_stagedNames (ps : List Pat) (st w : TRoot) (n : Str) :
+    (stagedNames ps st w).contains n = true ↔
+      ((st.has n = true ∨ w.has n = true) ∧ decideName ps n = .dontIgnore) := by
+  unfold stagedNames
+  simp [List.mem_filter, mem_unionNamesT]
+
+/-- `dolt add -A` / staging half of `dolt commit -A` with renames, pointwise over all names -/
+theorem stageAllR_spec (ps : List Pat) (st w : TRoot) :
+    ((∃ n ∈ unionNamesT st w, decideName ps n = .conflict) →
+      ∃ n ∈ unionNamesT st w, decideName ps n = .conflict ∧
+        stageAllR false ps st w = .error (.conflict n)) ∧
+    ((∀ n ∈ unionNamesT st w, decideName ps n ≠ .conflict) →
+      ∃ st', stageAllR false ps st w = .ok st' ∧
+        ∀ n, st'.get? n = stagedAfter (stagedNames ps st w) st w n) :=
+  stageTablesR_spec ps (unionNamesT st w) st w (fun n hn => (mem_unionNamesT st w n).mp hn)
+
+/-- helper: a successful `add -A` is described by `stagedAfter` -/
+theorem stageAllR_ok {ps : List Pat} {st w st' : TRoot} (h : stageAllR false ps st w = .ok st') (n : Str) :
+    st'.get? n = stagedAfter (stagedNames ps st w) st w n := by
+  obtain ⟨h1, h2⟩ := stageAllR_spec ps st w
+  by_cases hc : ∃ n ∈ unionNamesT st w, decideName ps n = .conflict
+  · obtain ⟨m, _, _, he⟩ := h1 hc; rw [he] at h; cases h
+  · obtain ⟨st'', he, hs⟩ := h2 (fun n hn hcn => hc ⟨n, hn, hcn⟩)
+    rw [he] at h; cases h; exact hs n
+
+/-- **Ignored names and renames** (`staging_excludes_ignored` extended): after a successful
+`add -A` / `commit -A` the staged entry of a name decided "ignore" is unchanged -- unless that table
+was renamed in the working set to a name that is *not* ignored, in which case the rename is staged
+and the old name leaves the staged root.  In particular a name that is not in the staged root and
+is decided "ignore" is never staged, whether it is a new table or the new name of a renamed one. -/
+theorem staging_excludes_ignored_rename {ps : List Pat} {st w st' : TRoot}
+    (h : stageAllR false ps st w = .ok st') {n : Str} (hn : decideName ps n = .ignore) :
+    st'.get? n =
+      match renamedTo st w n with
+      | some new => if decideName ps new = .dontIgnore then none else st.get? n
+      | none => st.get? n := by
+  rw [stageAllR_ok h n]
+  have hnot : (stagedNames ps st w).contains n = false := by
+    cases hc : (stagedNames ps st w).contains n with
+    | false => rfl
+    | true => have := ((mem_stagedNames ps st w n).mp hc).2; rw [hn] at this; cases this
+  unfold stagedAfter
+  simp only [hnot, Bool.false_and, Bool.false_eq_true, if_false]
+  by_cases hb : (st.has n && !w.has n) = true
+  · simp only [hb, if_true]
+    cases hr : renamedTo st w n with
+    | none => simp
+    | some new =>
+      obtain ⟨_, _, hwn, _⟩ := renamedTo_some hr
+      by_cases hd : decideName ps new = .dontIgnore
+      · have : (stagedNames ps st w).contains new = true :=
+          (mem_stagedNames ps st w new).mpr ⟨.inr hwn, hd⟩
+        have hm : new ∈ stagedNames ps st w := by simpa using this
+        simp [hm, hd]
+      · have : (stagedNames ps st w).contains new = false := by
+          cases hc : (stagedNames ps st w).contains new with
+          | false => rfl
+          | true => exact absurd ((mem_stagedNames ps st w new).mp hc).2 hd
+        have hm : ¬ new ∈ stagedNames ps st w := by simpa using this
+        simp [hm, hd]
+  · simp only [hb, Bool.false_eq_true, if_false]
+    have : renamedTo st w n = none := by
+      simp only [Bool.and_eq_true, Bool.not_eq_true', not_and, Bool.not_eq_false] at hb
+      by_cases hs : st.has n = true
+      · exact renamedTo_none_of_working (hb hs)
+      · exact renamedTo_none_of_not_staged (by simpa using hs)
+    simp [this]
+
+/-- corollary: an ignored name that is not in the staged root stays out of it (new table or
+rename target alike) -/
+theorem ignored_new_name_never_staged {ps : List Pat} {st w st' : TRoot}
+    (h : stageAllR false ps st w = .ok st') {n : Str} (hn : decideName ps n = .ignore)
+    (hs : st.has n = false) : st'.get? n = none := by
+  rw [staging_excludes_ignored_rename h hn, renamedTo_none_of_not_staged hs]
+  exact get?_none_of_not_hasT hs
+
+/-- **What `add -A` / `commit -A` do with a renamed tracked table: only the new name decides.**
+`old` (tracked) was renamed to `new` in the working set.  If `new` is decided "not ignored" the
+rename is staged -- `old` leaves the staged root, `new` enters with the working value -- even when
+`old` itself matches an ignore pattern.  If `new` is ignored nothing is staged: the staged root
+keeps `old` as it was and does not get `new` -- even when `old` is not ignored. -/
+theorem staging_rename {ps : List Pat} {st w st' : TRoot}
+    (h : stageAllR false ps st w = .ok st') {old new : Str} (hr : renamedTo st w old = some new) :
+    (decideName ps new = .dontIgnore → st'.get? old = none ∧ st'.get? new = w.get? new) ∧
+    (decideName ps new = .ignore → st'.get? old = st.get? old ∧ st'.get? new = none) := by
+  obtain ⟨hso, hwo, hwn, hsn⟩ := renamedTo_some hr
+  have hold : (tbls : List Str) → stagedAfter tbls st w old =
+      if tbls.contains new then none else st.get? old := by
+    intro tbls; simp [stagedAfter, hso, hwo, hr]
+  constructor
+  · intro hd
+    have hin : (stagedNames ps st w).contains new = true :=
+      (mem_stagedNames ps st w new).mpr ⟨.inr hwn, hd⟩
+    refine ⟨by rw [stageAllR_ok h old, hold, hin]; simp, ?_⟩
+    have hm : new ∈ stagedNames ps st w := by simpa using hin
+    rw [stageAllR_ok h new]; simp [stagedAfter, hm, hwn]
+  · intro hi
+    have hout : (stagedNames ps st w).contains new = false := by
+      cases hc : (stagedNames ps st w).contains new with
+      | false => rfl
+      | true => have := ((mem_stagedNames ps st w new).mp hc).2; rw [hi] at this; cases this
+    refine ⟨by rw [stageAllR_ok h old, hold, hout]; simp, ignored_new_name_never_staged h hi hsn⟩
+
+example : (stageAllR false [⟨"i*".toList, true⟩] [⟨"t".toList, 7, 1⟩, ⟨"u".toList, 8, 2⟩]
+      [⟨"i1".toList, 7, 1⟩, ⟨"v".toList, 8, 3⟩]).toOption
+    = some [⟨"t".toList, 7, 1⟩, ⟨"v".toList, 8, 3⟩] ∧
+    renamedTo [⟨"t".toList, 7, 1⟩, ⟨"u".toList, 8, 2⟩] [⟨"i1".toList, 7, 1⟩, ⟨"v".toList, 8, 3⟩] "t".toList
+      = some "i1".toList := by decide
+
+/-- without any rename in the working set the rename-aware machine is the plain one: every name
+that is not renamed away gets exactly what `stageAll_spec` says -/
+theorem staging_no_rename {ps : List Pat} {st w st' : TRoot}
+    (h : stageAllR false ps st w = .ok st') {n : Str} (hr : renamedTo st w n = none) :
+    st'.get? n = if decideName ps n = .dontIgnore then w.get? n else st.get? n := by
+  rw [stageAllR_ok h n]
+  unfold stagedAfter
+  by_cases hd : decideName ps n = .dontIgnore
+  · by_cases hw : w.has n = true
+    · have : (stagedNames ps st w).contains n = true := (mem_stagedNames ps st w n).mpr ⟨.inr hw, hd⟩
+      have hm : n ∈ stagedNames ps st w := by simpa using this
+      simp [hm, hw, hd]
+    · have hw' : w.has n = false := by simpa using hw
+      by_cases hs : st.has n = true
+      · have : (stagedNames ps st w).contains n = true := (mem_stagedNames ps st w n).mpr ⟨.inl hs, hd⟩
+        have hm : n ∈ stagedNames ps st w := by simpa using this
+        simp [hm, hw', hs, hr, hd, get?_none_of_not_hasT hw']
+      · have hs' : st.has n = false := by simpa using hs
+        simp [hw', hs', hd, get?_none_of_not_hasT hw', get?_none_of_not_hasT hs']
+  · have : (stagedNames ps st w).contains n = false := by
+      cases hc : (stagedNames ps st w).contains n with
+      | false => rfl
+      | true => exact absurd ((mem_stagedNames ps st w n).mp hc).2 hd
+    simp only [this, Bool.false_and, Bool.false_eq_true, if_false, hd, hr]
+    by_cases hb : (st.has n && !w.has n) = true <;> simp [hb]
+
+/-- **`dolt clean` on roots with identities** (`clean_exact` extended): clean is blind to renames --
+"untracked" is decided by the *name* alone. -/
+theorem cleanR_exact (respect : Bool) (ps : List Pat) (nl : List Str) (st w : TRoot) :
+    ((respect = true ∧ ∃ n ∈ w.names, decideName ps n = .conflict) →
+      ∃ n, cleanR respect ps nl [] st w = .error (.conflict n) ∧ decideName ps n = .conflict) ∧
+    (¬ (respect = true ∧ ∃ n ∈ w.names, decideName ps n = .conflict) →
+      ∃ w', cleanR respect ps nl [] st w = .ok w' ∧
+        ∀ n, w'.get? n =
+          if w.has n = true ∧ st.has n = false ∧ (respect = false ∨ decideName ps n ≠ .ignore) ∧
+             (nl.any (fun p => matchesName p n)) = false
+          then none else w.get? n) := by
+  obtain ⟨h1, h2⟩ := clean_exact respect ps nl st.plain w.plain
+  rw [plain_names] at h1 h2
+  constructor
+  · intro h
+    obtain ⟨n, he, hc⟩ := h1 h
+    exact ⟨n, by simp [cleanR, he], hc⟩
+  · intro h
+    obtain ⟨w', he, hs⟩ := h2 h
+    refine ⟨w.filter (fun e => w'.has e.name), by simp [cleanR, he], fun n => ?_⟩
+    rw [get?_filterT w (fun m => w'.has m) n]
+    have hw' : w'.has n = (w'.get? n).isSome := rfl
+    rw [hw', hs n, plain_has, plain_has, plain_get?]
+    by_cases hc : w.has n = true ∧ st.has n = false ∧ (respect = false ∨ decideName ps n ≠ .ignore) ∧
+        (nl.any (fun p => matchesName p n)) = false
+    · simp [hc]
+    · simp only [hc, if_false]
+      by_cases hwn : w.has n = true
+      · have : ((w.get? n).map (·.2)).isSome = true := by
+          unfold TRoot.has at hwn; cases hg : w.get? n <;> simp_all
+        simp [this]
+      · have hwn' : w.has n = false := by simpa using hwn
+        simp [get?_none_of_not_hasT hwn']
+
+/-- **Stated outright: a tracked table that was renamed in the working set is removed by
+`dolt clean`** (under its new name it is "untracked"), unless the new name is ignored and `-x` is
+not given (or it matches dolt_nonlocal_tables).  The staged root still holds the table under its
+old name, so committed data survives; uncommitted changes to it are lost like those of any
+untracked table. -/
+theorem clean_removes_renamed {respect : Bool} {ps : List Pat} {st w w' : TRoot}
+    (h : cleanR respect ps [] [] st w = .ok w') {old new : Str} (hr : renamedTo st w old = some new)
+    (hi : respect = false ∨ decideName ps new ≠ .ignore) : w'.get? new = none := by
+  obtain ⟨_, _, hwn, hsn⟩ := renamedTo_some hr
+  obtain ⟨h1, h2⟩ := cleanR_exact respect ps [] st w
+  by_cases hc : respect = true ∧ ∃ n ∈ w.names, decideName ps n = .conflict
+  · obtain ⟨m, he, _⟩ := h1 hc; rw [he] at h; cases h
+  · obtain ⟨w'', he, hs⟩ := h2 hc
+    rw [he] at h; cases h
+    rw [hs new]; simp [hwn, hsn, hi]
+
+example : (cleanR true [] [] [] [⟨"t".toList, 7, 1⟩] [⟨"r".toList, 7, 2⟩]).toOption = some [] ∧
+    renamedTo [⟨"t".toList, 7, 1⟩] [⟨"r".toList, 7, 2⟩] "t".toList = some "r".toList := by decide
 
 end DoltVerif.C46
